@@ -263,7 +263,11 @@ pub(crate) fn ps_class_identifier_class_type_class_scope(
 ) -> IResult<Span, PsClassIdentifier> {
     let (s, a) = opt(terminated(
         package_scope,
-        peek(pair(class_identifier, symbol("::"))),
+        peek(triple(
+            class_identifier,
+            opt(parameter_value_assignment),
+            symbol("::"),
+        )),
     ))(s)?;
     let (s, b) = class_identifier(s)?;
     Ok((s, PsClassIdentifier { nodes: (a, b) }))
